@@ -372,6 +372,35 @@ func refAction(a string) string {
 	return "Block"
 }
 
+// tierVerdictSvcSourceDropped is the tier verdict if the source nets / source IP sets of egress
+// rules on a destination Service are NOT applied - what the converter actually programs (known
+// finding service-rule-source-ignored).  Used only to attribute a mismatch to that finding.
+func (s *state) tierVerdictSvcSourceDropped(ids []string, inbound, eot bool, p pkt) string {
+	for _, id := range ids {
+		pol := s.pols[id]
+		if pol == nil {
+			continue
+		}
+		rules := pol.OutboundRules
+		if inbound {
+			rules = pol.InboundRules
+		}
+		for _, r := range rules {
+			if !inbound && len(r.DstIpPortSetIds) > 0 && len(r.SrcNet)+len(r.SrcIpSetIds) > 0 {
+				r = googleClone(r)
+				r.SrcNet, r.SrcIpSetIds = nil, nil
+			}
+			if s.refMatches(r, p) {
+				return refAction(r.Action)
+			}
+		}
+	}
+	if eot {
+		return "Block"
+	}
+	return "pass"
+}
+
 func (s *state) tierVerdict(ids []string, inbound, eot bool, p pkt) string {
 	for _, id := range ids {
 		pol := s.pols[id]
@@ -673,13 +702,19 @@ func exec(h *rt.H, s *state, op string) string {
 			hv = strings.Join(acts, ",")
 		}
 		switch {
+		case !allSupp && allSuppPlus && len(acts) == 1 && acts[0] == ref:
+			h.Count("pkt:service-with-source-agrees")
+		case !allSupp && allSuppPlus && len(acts) == 1 && acts[0] == s.tierVerdictSvcSourceDropped(ids, inbound, eot, p):
+			// attributed PER PACKET: the HNS verdict differs from the policy's AND equals the verdict the
+			// policy would have with the Service rules' source constraints dropped
+			h.OracleFail("service-rule-source-ignored", "egress rule on a destination Service that also carries source nets / a source IP set: the generated HNS rules ignore them",
+				map[string]any{"op": op, "hns": acts, "policy": ref, "rules": renderRules(rules)})
+		case !allSupp && allSuppPlus && len(acts) != 1:
+			h.OracleFail("ambiguous-priority", "rules with different actions share the lowest matching priority (verdict depends on HNS tie-break)",
+				map[string]any{"op": op, "actions": acts, "rules": renderRules(rules)})
 		case !allSupp && allSuppPlus:
-			if len(acts) != 1 || acts[0] != ref {
-				h.OracleFail("service-rule-source-ignored", "egress rule on a destination Service that also carries source nets / a source IP set: the generated HNS rules ignore them",
-					map[string]any{"op": op, "hns": acts, "policy": ref, "rules": renderRules(rules)})
-			} else {
-				h.Count("pkt:service-with-source-agrees")
-			}
+			h.OracleFail("verdict-mismatch", "HNS rules evaluated by priority give a different verdict than the policy (not explained by the ignored source constraints of a Service rule)",
+				map[string]any{"op": op, "hns": acts[0], "policy": ref, "rules": renderRules(rules)})
 		case !allSupp:
 			h.Count("pkt:unsupported-or-missing(no-oracle)")
 		case len(acts) != 1:
@@ -720,12 +755,12 @@ func exec(h *rt.H, s *state, op string) string {
 		}
 		tiersBefore := strings.Join(before, " /// ")
 		flat, panicked := flatten(lists)
-		// aliasing oracle: asking again for the same tiers must give what the first call gave
-		// (GetPolicySetRules returns fresh copies; nothing downstream may reach its cache)
+		// aliasing observation (counter only): does asking again for the same tiers give what the first call gave?
 		for i, t := range tiers {
 			if again := renderRules(s.ps.GetPolicySetRules(t.ids, inbound, t.eot)); again != before[i] {
-				h.OracleFail("policyset-cache-mutated", "flattening the rules returned by GetPolicySetRules changed what GetPolicySetRules returns for the same arguments (its result aliases the PolicySets cache)",
-					map[string]any{"op": op, "tier": i, "first": before[i], "second": again})
+				// an OBSERVATION, not an oracle: the property speaks about verdicts only; a corrupted cache
+				// shows up as a verdict mismatch / model disagreement in a later round of the same case
+				h.Count("obs:policyset-cache-mutated")
 				break
 			}
 		}
